@@ -9,7 +9,7 @@ import (
 	"verif/spec"
 )
 
-var c04Behaviours = []string{"exit-now", "exit-200", "exit-600", "exit-1000", "never", "busy", "frozen", "crashed", "failed-handshake"}
+var c04Behaviours = []string{"exit-now", "exit-200", "exit-600", "exit-1000", "never", "busy", "frozen", "crashed", "failed-handshake", "start-timeout-partial-line"}
 
 func c04Gen(r *rand.Rand, tier string) []spec.Case {
 	var out []spec.Case
@@ -23,20 +23,29 @@ func c04Gen(r *rand.Rand, tier string) []spec.Case {
 	protos := []string{"netrpc", "grpc", "grpcmux"}
 	launches := []string{"cmd", "runner", "reattach"}
 	patterns := []string{"single", "sequential", "concurrent"}
-	for _, b := range c04Behaviours {
-		for _, pr := range protos {
-			for _, la := range launches {
-				if la == "reattach" && (pr == "grpcmux" || b == "failed-handshake") {
-					continue // multiplexing does not support reattach; nothing to reattach to
-				}
-				if b == "frozen" && pr != "grpc" && tier != "thorough" {
-					continue // 30+10 s yamux keep-alive: thorough tier only
-				}
-				for _, pa := range patterns {
-					if tier != "thorough" && r.Intn(3) != 0 && !(pa == "single" && la == "cmd") {
-						continue // quick: every (behaviour, proto) single/cmd cell + a third of the rest
+	reps := 1
+	if tier == "thorough" {
+		reps = 3 // the product three times: schedules differ
+	}
+	for rep := 0; rep < reps; rep++ {
+		for _, b := range c04Behaviours {
+			for _, pr := range protos {
+				for _, la := range launches {
+					if la == "reattach" && (pr == "grpcmux" || b == "failed-handshake" || b == "start-timeout-partial-line") {
+						continue // multiplexing does not support reattach; nothing to reattach to
 					}
-					add(spec.C04Case{Behaviour: b, Proto: pr, Launch: la, Pattern: pa})
+					if b == "frozen" && pr != "grpc" && tier != "thorough" {
+						continue // 30+10 s yamux keep-alive: thorough tier only
+					}
+					for _, pa := range patterns {
+						if tier != "thorough" && r.Intn(3) != 0 && !(pa == "single" && la == "cmd") {
+							continue // quick: every (behaviour, proto) single/cmd cell + a third of the rest
+						}
+						if rep > 0 && b == "frozen" && pr != "grpc" {
+							continue // the 45 s cases once only
+						}
+						add(spec.C04Case{Behaviour: b, Proto: pr, Launch: la, Pattern: pa})
+					}
 				}
 			}
 		}
@@ -46,7 +55,7 @@ func c04Gen(r *rand.Rand, tier string) []spec.Case {
 	if tier == "thorough" {
 		ncl = 30
 	}
-	mixed := []string{"exit-now", "exit-200", "exit-600", "never", "busy", "crashed", "failed-handshake"}
+	mixed := []string{"exit-now", "exit-200", "exit-600", "never", "busy", "crashed", "failed-handshake", "start-timeout-partial-line"}
 	for i := 0; i < ncl; i++ {
 		n := []int{1, 3, 6}[i%3]
 		var bs []string
